@@ -625,7 +625,7 @@ func genOverlay(cf *ContractFile) (string, error) {
 			body.WriteString("func govcIfaceOf(v reflect.Value) interface{} { return v.Interface() }\n")
 			body.WriteString("func govcRvmt(v reflect.Value) int { return 0 }\nfunc govcRvfld(v reflect.Value) int { return 0 }\nfunc govcRvobj(v reflect.Value) int { return 0 }\nfunc govcRvcls(v reflect.Value) int { return 0 }\nfunc govcRvttag(v reflect.Value) int { return 0 }\nfunc govcRvstate(v reflect.Value) int { return 0 }\nfunc govcRvwid(v reflect.Value) int { return 0 }\nfunc govcRvecls(v reflect.Value) int { return 0 }\nfunc govcRvewid(v reflect.Value) int { return 0 }\nfunc govcRvvalid(v reflect.Value) bool { return v.IsValid() }\nfunc govcRvismsg(v reflect.Value, m int) bool { return true }\n")
 			body.WriteString("func govcMsgOf[T any](v reflect.Value) T { return v.Interface().(T) }\n")
-			body.WriteString("func govcRvlen(v reflect.Value) int { return 0 }\nfunc govcRvint(v reflect.Value) int { return 0 }\nfunc govcRvflt(v reflect.Value) float64 { return 0 }\nfunc govcRvfieldof(v reflect.Value, i int) reflect.Value { return v }\nfunc govcRvcell(v reflect.Value) int { return 0 }\nfunc govcRvindirect(v reflect.Value) reflect.Value { return reflect.Indirect(v) }\nfunc govcRvmsgarg(v reflect.Value) bool { return true }\nfunc govcRvstr(v reflect.Value) string { return \"\" }\n")
+			body.WriteString("func govcRvlen(v reflect.Value) int { return 0 }\nfunc govcRvisnil(v reflect.Value) bool { return false }\nfunc govcRvint(v reflect.Value) int { return 0 }\nfunc govcRvflt(v reflect.Value) float64 { return 0 }\nfunc govcRvfieldof(v reflect.Value, i int) reflect.Value { return v }\nfunc govcRvcell(v reflect.Value) int { return 0 }\nfunc govcRvindirect(v reflect.Value) reflect.Value { return reflect.Indirect(v) }\nfunc govcRvmsgarg(v reflect.Value) bool { return true }\nfunc govcRvstr(v reflect.Value) string { return \"\" }\n")
 		}
 	}
 	{
@@ -798,7 +798,7 @@ func genOverlay(cf *ContractFile) (string, error) {
 	return b.String(), nil
 }
 
-var reBuiltin = regexp.MustCompile(`\b(old|ite|fresh|same|isNaN|ifaceOf|samebase|offset|isEOF|isUEOF|iserr|isLE|isBE|ifaceobj|allfields|rvmt|rvfld|rvobj|rvcls|rvttag|rvstate|rvwid|rvecls|rvewid|rvvalid|rvismsg|rvlen|binsize|tagsize|rtypemsg|rvindirect|rvmsgarg|rvstr|f32bits|f64bits|rvtimeat|rvcell|rvtime|rvint|rvflt|rvfieldof|tsec|tns|tzoff|tzid|rvNumField|rvClass|rvWidth|rvEClass|rvEWidth|rvTypeTag|rvRow)\(`)
+var reBuiltin = regexp.MustCompile(`\b(old|ite|fresh|same|isNaN|ifaceOf|samebase|offset|isEOF|isUEOF|iserr|isLE|isBE|ifaceobj|allfields|rvmt|rvfld|rvobj|rvcls|rvttag|rvstate|rvwid|rvecls|rvewid|rvvalid|rvismsg|rvlen|rvisnil|binsize|tagsize|rtypemsg|rvindirect|rvmsgarg|rvstr|f32bits|f64bits|rvtimeat|rvcell|rvtime|rvint|rvflt|rvfieldof|tsec|tns|tzoff|tzid|rvNumField|rvClass|rvWidth|rvEClass|rvEWidth|rvTypeTag|rvRow)\(`)
 var reTypeIs = regexp.MustCompile(`\btypeis\[`)
 var reMsgOf = regexp.MustCompile(`\bmsgOf\[`)
 var reTypeTag = regexp.MustCompile(`\btypetag\[`)
@@ -885,6 +885,8 @@ func rewriteBuiltins(s string) string {
 			return "govcRvstr("
 		case "rvindirect(":
 			return "govcRvindirect("
+		case "rvisnil(":
+			return "govcRvisnil("
 		case "rvlen(":
 			return "govcRvlen("
 		case "rtypemsg(":
